@@ -66,6 +66,9 @@ def check_periods(chk, n, r, binary='acmed_v'):
     while pos < len(inputs):
         batch = inputs[pos:]
         rc, recs, err = C.probe('duration', batch, timeout=600, binary=binary)
+        if rc == 64:
+            chk.inconclusive.append('period probe unavailable: %s' % err)
+            return
         results = {}
         last_begin = None
         for rec in recs:
@@ -360,6 +363,9 @@ def run_probe_cases(chk, d, cases):
         reqs = [{'config': p, 'timeout_ms': 2500} for p in paths[pos:]]
         t0 = time.time()
         rc, recs, err = C.probe('firstreq', reqs, timeout=30 + 4 * len(reqs), cwd=d)
+        if rc == 64:
+            chk.inconclusive.append('configuration probe unavailable: %s' % err)
+            return
         res = {}
         last_begin = None
         for rec in recs:
